@@ -126,8 +126,10 @@ inline Outcome runApiCase(const KV& c)
     o.cls("part_api");
     std::string fr = tmpBase() + "_r.txt", ft = tmpBase() + "_t.txt";
     if (gridFile) {
-        // a grid from files: coarsenable (nr odd, ntheta%4==0) or not
-        const int nr = gridFile == 1 ? 9 : 8, nt = gridFile == 1 ? 16 : 6;
+        // a grid from files: coarsenable (nr odd, ntheta%4==0) or not (kind 2); kinds 3-5 are coarsenable with a number of
+        // angular divisions that is not a power of two (12 -> 6, 24 -> 12 -> 6, 20 -> 10): only grid files reach those
+        static const int kNr[6] = {0, 9, 8, 9, 17, 9}, kNt[6] = {0, 16, 6, 12, 24, 20};
+        const int nr = kNr[gridFile], nt = kNt[gridFile];
         std::ofstream a(fr), b(ft);
         a.precision(18);
         b.precision(18);
@@ -378,7 +380,7 @@ inline KV genOptionsCase()
         s.cache_coef    = rint(0, 7) != 0;
         s.cache_geom    = rint(0, 7) != 0;
         s.put(c);
-        c.putI("grid_file", rweighted({8, 1, 1}));
+        c.putI("grid_file", rweighted({8, 1, 1, 1, 1, 1}));
         c.putI("verbose2", rweighted({1, 1, 1})); // verbosity of the second run (the first one is silent)
     }
     else {
